@@ -1,6 +1,7 @@
 """Mutations of the C19 mechanism (development self-test).  Usage (cwd = scratch copy of /repo, done by tools/mutate.sh):
     MUTNAME=<name> tools/mutate.sh C19 harness/c19_mutations.py
-m*: first pass, n*/b*: second pass (names / buffering), q*: third pass (object state, custom triples, path separators).  n1, n2 need the repaired tree (fixes/C19-name-fn.diff applied to
+m*: first pass, n*/b*: second pass (names / buffering), q*: third pass (object state, custom triples, path separators), r*: fourth pass
+(None / falsy results, life of the cache directory).  n1, n2 need the repaired tree (fixes/C19-name-fn.diff applied to
 the copy first: MUTNAME=fix+n2) and the switch in `repaired` (tools/c19_switch.py)."""
 import os
 import sys
@@ -32,6 +33,17 @@ M = {
     "q5": (PAR, "cast(Tout, cache.load_fn(file))", "cast(Tout, _pickle_load(file))"),
     # q6: save_fn handed a sibling path, renamed afterwards
     "q6": (PAR, "        cache.save_fn(file, res)\n", '        cache.save_fn(file.with_name(file.name + ".part"), res)\n        os.replace(file.with_name(file.name + ".part"), file)\n'),
+    # r1: the cached branch trusts only truthy stored results (0, "", (), False, 0.0, None are recomputed on every run)
+    "r1": (PAR, "        if file.exists():\n            return k, cast(Tout, cache.load_fn(file))\n",
+           "        if file.exists() and (hit := cache.load_fn(file)):\n            return k, cast(Tout, hit)\n"),
+    # r2: the cache directory is created without its parents
+    "r2": (PAR, "        cache.tmp_dir.mkdir(parents=True, exist_ok=True)\n", "        cache.tmp_dir.mkdir(exist_ok=True)\n"),
+    # r3: the directory is created once per process and location
+    "r3": (PAR, "    if cache is not None:\n        cache.tmp_dir.mkdir(parents=True, exist_ok=True)\n",
+           "    if cache is not None and cache.tmp_dir not in _MADE:\n        cache.tmp_dir.mkdir(parents=True, exist_ok=True)\n        _MADE.add(cache.tmp_dir)\n"),
+    "r3b": (PAR, "def _pickle_name(", "_MADE: set = set()\n\n\ndef _pickle_name("),
+    # r4: "no result" (None) is not worth a file
+    "r4": (PAR, "        cache.save_fn(file, res)\n", "        if res is not None:\n            cache.save_fn(file, res)\n"),
     "b2": (PAR, SAVE_TAIL, '    fp = tmp.open("wb")\n    pickle.dump(data, fp)\n    os.replace(tmp, file)\n    fp.close()\n'),
 }
 
